@@ -37,6 +37,9 @@ type stage struct {
 	// stage released by a tracking transaction can be paid from the next
 	// block on.
 	ready bool
+	// released: the committee took the stage's amount back (proposal
+	// canceled / aborted / terminated / finalized / closed).  At most once.
+	released bool
 }
 
 type prop struct {
@@ -51,6 +54,9 @@ type prop struct {
 	seen      bool // the node knows it
 	tainted   bool
 	desc      string
+	target    common.Uint256 // close proposal: the proposal it closes
+	// terminatedByTx: a Terminated tracking transaction of the current block
+	terminatedByTx bool
 }
 
 func (p *prop) expected() common.Fixed64 {
@@ -113,6 +119,18 @@ type model struct {
 	assets   map[string]common.Fixed64 // outpoints at the CR assets address
 	// observed before the current block
 	canUse common.Fixed64
+	// used is the model's version of the committee's committed amount
+	// (CRCCommitteeUsedAmount): the budgets reserved in this term, each stage
+	// given back at most once, recomputed from the outstanding stages when a
+	// new committee takes office
+	used common.Fixed64
+	// usedTainted: a listed known finding made the node's amount diverge;
+	// both agree again when the next committee recomputes it
+	usedTainted       bool
+	lastCommittee     uint32
+	releasesThisBlock []string
+	// usedCause qualifies a divergence of the committed amount in this block
+	usedCause string
 }
 
 func newModel(k *statekit.Kit) *model {
@@ -153,6 +171,8 @@ func (m *model) apply(h uint32, txs []blockTx) []finding {
 	ast := *m.k.Params.CRConfiguration.CRAssetsProgramHash
 	usedInBlock := new(big.Int)
 	withdrawsOf := map[common.Uint256]int{}
+	endingsOf := map[common.Uint256]int{}
+	m.usedCause = ""
 	for _, bt := range txs {
 		tx := bt.tx
 		hash := tx.Hash()
@@ -185,6 +205,10 @@ func (m *model) apply(h uint32, txs []blockTx) []finding {
 				p.wrapped += b.Amount
 			}
 			m.props[ph] = p
+			if pl.ProposalType == payload.CloseProposal {
+				p.target = pl.TargetProposalHash
+			}
+			m.used += p.wrapped
 			// acceptance: the exact sum has to fit into what the committee can
 			// still commit, counting the proposals accepted earlier in this block
 			room := new(big.Int).Sub(big.NewInt(int64(m.canUse)), usedInBlock)
@@ -202,7 +226,19 @@ func (m *model) apply(h uint32, txs []blockTx) []finding {
 			if p == nil {
 				break
 			}
+			if pl.ProposalTrackingType == payload.Terminated || pl.ProposalTrackingType == payload.Finalized {
+				endingsOf[pl.ProposalHash]++
+				if endingsOf[pl.ProposalHash] > 1 {
+					m.usedCause = ":several-terminating-trackings-of-one-proposal-in-one-block"
+				}
+			}
 			switch pl.ProposalTrackingType {
+			case payload.Terminated:
+				// everything that had not become withdrawable before this block goes back
+				if p.status == crstate.VoterAgreed {
+					m.release(p, "terminated by tracking", func(st *stage) bool { return !st.ready })
+					p.terminatedByTx = true
+				}
 			case payload.Progress:
 				if st := p.stages[pl.Stage]; st != nil {
 					if st.typ != payload.NormalPayment {
@@ -212,6 +248,8 @@ func (m *model) apply(h uint32, txs []blockTx) []finding {
 					st.withdrawable = true
 				}
 			case payload.Finalized:
+				// the unfinished stages other than the final payment go back
+				m.release(p, "finalized", func(st *stage) bool { return !st.ready && st.typ != payload.FinalPayment })
 				for _, st := range p.stages {
 					if st.typ == payload.FinalPayment {
 						st.withdrawable = true
@@ -277,10 +315,34 @@ func (p *prop) render() string {
 	return s
 }
 
+// release gives the selected, not yet released stages back to the committee.
+func (m *model) release(p *prop, why string, sel func(*stage) bool) {
+	var amt common.Fixed64
+	for _, st := range p.stages {
+		if !st.released && sel(st) {
+			st.released = true
+			amt += st.amount
+		}
+	}
+	m.used -= amt
+	m.releasesThisBlock = append(m.releasesThisBlock, fmt.Sprintf("%x %s: %s", p.hash[:4], why, amt))
+}
+
 // observeAfter reads the statuses after block h; the voters' agreement makes
 // the imprest stage withdrawable.
 func (m *model) observeAfter(h uint32) {
-	for hash, p := range m.props {
+	var hs []common.Uint256
+	for hash := range m.props {
+		hs = append(hs, hash)
+	}
+	sort.Slice(hs, func(i, j int) bool { return hs[i].Compare(hs[j]) < 0 })
+	olds := map[common.Uint256]crstate.ProposalStatus{}
+	for _, hash := range hs {
+		olds[hash] = m.props[hash].status
+	}
+	closedBy := map[common.Uint256]int{}
+	for _, hash := range hs {
+		p := m.props[hash]
 		ps := m.k.Committee.GetProposal(hash)
 		if ps == nil {
 			continue
@@ -288,6 +350,32 @@ func (m *model) observeAfter(h uint32) {
 		p.seen = true
 		old := p.status
 		p.status = ps.Status
+		all := func(*stage) bool { return true }
+		switch {
+		case old == crstate.Registered && p.status == crstate.CRCanceled:
+			m.release(p, "rejected by the council", all)
+		case old == crstate.CRAgreed && p.status == crstate.VoterCanceled:
+			m.release(p, "rejected by the voters", all)
+		case (old == crstate.Registered || old == crstate.CRAgreed) && p.status == crstate.Aborted:
+			m.release(p, "aborted", all)
+		case old == crstate.CRAgreed && p.status == crstate.Finished && p.typ == payload.CloseProposal:
+			// a close proposal passed: the target, if the voters' agreement
+			// still stood before this block's votes were counted, is terminated
+			// and what had not become withdrawable goes back
+			closedBy[p.target]++
+			if closedBy[p.target] > 1 {
+				m.usedCause = ":several-close-proposals-of-one-target-passed-in-one-block"
+			}
+			if t := m.props[p.target]; t != nil {
+				was := olds[p.target]
+				if t.terminatedByTx {
+					was = crstate.Terminated
+				}
+				if was == crstate.VoterAgreed {
+					m.release(t, "closed by proposal", func(st *stage) bool { return !st.withdrawable })
+				}
+			}
+		}
 		if old == crstate.CRAgreed && (p.status == crstate.VoterAgreed || p.status == crstate.Finished) {
 			for _, i := range p.order {
 				if p.stages[i].typ == payload.Imprest {
@@ -298,9 +386,40 @@ func (m *model) observeAfter(h uint32) {
 		}
 	}
 	for _, p := range m.props {
+		p.terminatedByTx = false
 		for _, st := range p.stages {
 			st.ready = st.withdrawable
 		}
+	}
+	// a new committee took office: the committed amount is recomputed from the
+	// stages still owed
+	if lc := m.k.Committee.LastCommitteeHeight; lc != m.lastCommittee {
+		m.lastCommittee = lc
+		m.usedTainted = false
+		var u common.Fixed64
+		for _, hash := range hs {
+			p := m.props[hash]
+			if !p.seen {
+				continue
+			}
+			switch p.status {
+			case crstate.CRCanceled, crstate.VoterCanceled, crstate.Aborted:
+			case crstate.Terminated, crstate.Finished:
+				for _, st := range p.stages {
+					if st.withdrawable && !st.withdrawn {
+						u += st.amount
+					}
+				}
+			default:
+				for _, st := range p.stages {
+					if !st.withdrawn {
+						u += st.amount
+					}
+				}
+			}
+		}
+		m.used = u
+		m.releasesThisBlock = append(m.releasesThisBlock, fmt.Sprintf("new committee: recomputed %s", u))
 	}
 }
 
@@ -355,6 +474,12 @@ func (m *model) compare(h uint32) []finding {
 		}
 		committed.Add(committed, p.outstanding())
 	}
+	// the committee's committed amount against the budgets reserved and given back once
+	if got := m.k.Committee.CRCCommitteeUsedAmount; got != m.used && !m.usedTainted {
+		out = append(out, finding{"C29:committee:CRCCommitteeUsedAmount-differs-from-reserved-budgets" + m.usedCause,
+			fmt.Sprintf("height %d: CRCCommitteeUsedAmount %s, budgets reserved minus given back (each stage once) %s; this block: %v", h, got, m.used, m.releasesThisBlock), nil})
+	}
+	m.releasesThisBlock = nil
 	// the committee's commitments against the funds it has or is entitled to
 	funds := new(big.Int).Add(big.NewInt(int64(sum(m.expenses))), big.NewInt(int64(m.pendingAppropriation())))
 	if committed.Cmp(funds) > 0 {
